@@ -110,10 +110,42 @@ theorem oldLock_counterexample :
     ((lockUpdate p0 2).1.current = some 3 ∧ (lockUpdate p0 2).1.removes = [] ∧ (lockUpdate p0 2).1.notifs = []) := by
   decide
 
-/-- delivered notifications name strictly increasing ids (across restarts as well) -/
-theorem notifications_increase (files0 : List Nat) (as : List Act) (s : Sys) (obs : List Obs)
-    (h : run (init files0) as = some (s, obs)) : s.pub.delivered.Pairwise (· < ·) :=
-  (List.pairwise_append.mp (run_inv as (inv_init files0) h).notifSorted).1
+/- FULL STATEMENT (false on the code, D54): the retained-ids notifications the job receives name strictly
+increasing ids — "telling operators what to retain never names an older one as the only one to keep".
+Every notification is sent from its own goroutine, so an older one can be received after a newer one
+(`notifications_reordered_counterexample`). What holds: -/
+/-- PARTIAL: as long as the started notification goroutines got their sends through in start order
+(`Pub.fifo`), the delivered notifications name strictly increasing ids (across restarts as well). -/
+theorem notifications_increase_partial (files0 : List Nat) (as : List Act) (s : Sys) (obs : List Obs)
+    (h : run (init files0) as = some (s, obs)) (hf : s.pub.fifo = true) : s.pub.delivered.Pairwise (· < ·) :=
+  (List.pairwise_append.mp ((run_inv as (inv_init files0) h).notifSorted hf)).1
+
+/-- Unconditionally (any delivery order): the notifications are *decided* in strictly increasing order, and
+every id ever announced or queued is a persisted checkpoint not newer than the current one. -/
+theorem notifications_sound (files0 : List Nat) (as : List Act) (s : Sys) (obs : List Obs)
+    (h : run (init files0) as = some (s, obs)) :
+    s.pub.notifs.flatten.Pairwise (· < ·) ∧
+    ∀ k ∈ s.pub.delivered ++ s.pub.notifs.flatten, k ∈ s.pub.written ∧ ∃ c ∈ s.pub.completed, k ≤ c := by
+  have hi := run_inv as (inv_init files0) h
+  exact ⟨hi.queueSorted, fun k hk => ⟨hi.notifWr k hk, hi.notifLe k hk⟩⟩
+
+/-- D54 (open): checkpoints 2 and 3 are published in order, both notification goroutines are started, and the
+one for `[3]` gets its send through first: the job receives `[3]` and then `[2]` — after checkpoint 3 has been
+announced the operators are told to keep only checkpoint 2. -/
+theorem notifications_reordered_counterexample :
+    (run (init [])
+      [.call (.create [1] [1]), .call (.opAck 1 1 0), .call (.srAck 1 1 []), .write 1, .lock 1,
+       .call (.create [1] [1]), .call (.opAck 1 2 0), .call (.srAck 1 2 []), .write 2, .lock 2,
+       .call (.create [1] [1]), .call (.opAck 1 3 0), .call (.srAck 1 3 []), .write 3, .lock 3,
+       .deliver 1, .deliver 0]).map (fun r => (r.1.pub.delivered, r.1.pub.current))
+    = some ([3, 2], some 3) := by decide
+
+/-- The savepoint start mode (`LoadCheckpoint` with a savepoint URI; the job keeps the URI, so every restart of
+such a job takes this path) does NOT resume from the newest completed checkpoint: with the files of checkpoint 3
+in storage it makes savepoint 1 the current checkpoint. All theorems of this file are about jobs started without
+a savepoint URI (`init`/`crash` use the plain `boot`); the code's own comment calls the override provisional. -/
+theorem savepoint_restart_goes_back_counterexample :
+    (bootSavepoint 1 [3] [3, 2, 1] []).pub.current = some 1 ∧ load [3] = some 3 := by decide
 
 /-- the current checkpoint never goes back, whatever step comes next (late publications, crash) -/
 theorem current_never_regresses (files0 : List Nat) (as : List Act) (s : Sys) (obs : List Obs)
@@ -138,7 +170,7 @@ theorem current_never_regresses (files0 : List Nat) (as : List Act) (s : Sys) (o
     split at hs
     · simp only [Option.some.injEq, Prod.mk.injEq] at hs; rw [← hs.1]; exact ⟨cur, hc, Nat.le_refl _⟩
     · exact absurd hs (by simp)
-  | deliver =>
+  | deliver k =>
     simp only [step] at hs
     split at hs
     · exact absurd hs (by simp)
@@ -181,7 +213,7 @@ theorem crash_recovers_newest (files0 : List Nat) (as : List Act) (s : Sys) (obs
       s'.pub.current = (if s.pub.written = [] then none else some (maxL s.pub.written)) ∧
       s'.store.cid = maxL s.pub.written ∧ s'.store.pending = none ∧ s'.pub.files = s.pub.files := by
   have hi := run_inv as (inv_init files0) h
-  refine ⟨boot s.pub.files s.pub.written s.pub.delivered, ?_, ?_, ?_, rfl, rfl⟩
+  refine ⟨boot s.pub.files s.pub.written s.pub.delivered s.pub.initial s.pub.finished s.pub.fifo, ?_, ?_, ?_, rfl, rfl⟩
   · simp only [step]
     by_cases hw : s.pub.written = []
     · have hf : s.pub.files = [] := by
@@ -214,7 +246,7 @@ def demo : List Act :=
   [.call (.create [1] [1]), .call (.opAck 1 1 0), .call (.srAck 1 1 [5]), .write 1, .lock 1,
    .call (.create [1] [1]), .call (.opAck 1 2 0), .call (.srAck 1 2 [5]),
    .call (.create [1] [1]), .call (.opAck 1 3 0), .call (.srAck 1 3 [5]),
-   .write 3, .lock 3, .write 2, .lock 2, .remove [1], .deliver, .crash]
+   .write 3, .lock 3, .write 2, .lock 2, .remove [1], .deliver 0, .crash]
 
 example : (run (init []) demo).map (fun r => (r.1.pub.files, r.1.pub.completed, r.1.pub.delivered, r.1.store.cid))
     = some ([2, 3], [3], [3], 3) := by decide
